@@ -547,7 +547,15 @@ type c09case struct {
 	why     string // class of the value
 	orig    any    // the value, normalised
 	marshal func() (any, error)
-	parse   func(m any) (any, error) // parsed value, normalised
+	parse   func(m any) (any, error) // parsed value, as the library returned it
+	norm    func(v any) any          // normalisation applied before a parsed value is compared (nil: none)
+}
+
+func (c *c09case) normed(v any) any {
+	if c.norm == nil || v == nil {
+		return v
+	}
+	return c.norm(v)
 }
 
 type c09rtKind struct {
@@ -1036,8 +1044,12 @@ var c09rtKinds = []*c09rtKind{
 			parse: func(m any) (any, error) {
 				var x headers.KeyMgmt
 				e := x.Unmarshal(m.(base.HeaderValue))
-				x.MikeyMessage = c09normMikey(x.MikeyMessage)
 				return x, e
+			},
+			norm: func(a any) any {
+				x := a.(headers.KeyMgmt)
+				x.MikeyMessage = c09normMikey(x.MikeyMessage)
+				return x
 			}}, err
 	}},
 	{h: "mikey.Message", build: func(v c09vec) (c09case, error) {
@@ -1049,8 +1061,9 @@ var c09rtKinds = []*c09rtKind{
 			parse: func(m any) (any, error) {
 				var x mikey.Message
 				e := x.Unmarshal(m.([]byte))
-				return c09normMikey(&x), e
-			}}, err
+				return &x, e
+			},
+			norm: func(a any) any { return c09normMikey(a.(*mikey.Message)) }}, err
 	}},
 }
 
@@ -1064,6 +1077,12 @@ func c09mEqual(a, b any) bool {
 
 // c09rtOne runs one value; every call into the library is guarded.
 func c09rtOne(c c09case) (eq, pure, det, panicked bool, why string) {
+	eq, pure, det, panicked, why, _ = c09rtOneVal(c)
+	return
+}
+
+// c09rtOneVal also returns the value obtained by the first parse (nil if it failed).
+func c09rtOneVal(c c09case) (eq, pure, det, panicked bool, why string, parsed any) {
 	why = c.why
 	type mres struct {
 		m   any
@@ -1084,7 +1103,7 @@ func c09rtOne(c c09case) (eq, pure, det, panicked bool, why string) {
 	if m1.err != nil || m2.err != nil {
 		// a well-formed value that cannot be marshalled: nothing to parse
 		pure = m1.err != nil && m2.err != nil && m1.err.Error() == m2.err.Error()
-		return false, pure, true, panicked, why
+		return false, pure, true, panicked, why, nil
 	}
 	pure = c09mEqual(m1.m, m2.m)
 	doParse := func() (o c09out) {
@@ -1105,12 +1124,14 @@ func c09rtOne(c c09case) (eq, pure, det, panicked bool, why string) {
 	for i := 1; i < c09RtReps; i++ {
 		o := doParse()
 		panicked = panicked || o.panicked
-		if !c09same(first, o) {
+		fn, on := first, o
+		fn.val, on.val = c.normed(first.val), c.normed(o.val)
+		if !c09same(fn, on) {
 			det = false
 		}
 	}
-	eq = !first.failed && reflect.DeepEqual(first.val, c.orig)
-	return eq, pure, det, panicked, why
+	eq = !first.failed && reflect.DeepEqual(c.normed(first.val), c.orig)
+	return eq, pure, det, panicked, why, first.val
 }
 
 func c09rtTrace(s *vt.Sink, class, h string, vecs []c09vec) error {
@@ -1126,12 +1147,30 @@ func c09rtTrace(s *vt.Sink, class, h string, vecs []c09vec) error {
 	desc, _ := json.Marshal(c09replay{Kind: "rt", H: h, Vecs: vecs})
 	tr := s.Begin(class, string(desc))
 	defer tr.End()
+	// a parsed value is the caller's: the values obtained for the previous vectors are looked
+	// at again after each later parse and must still equal what was marshalled
+	type kept struct {
+		val, orig any
+		c         c09case
+	}
+	var earlier []kept
 	for _, v := range vecs {
 		c, err := kind.build(v)
 		if err != nil {
 			return err
 		}
-		eq, pure, det, panicked, why := c09rtOne(c)
+		eq, pure, det, panicked, why, val := c09rtOneVal(c)
+		for _, k := range earlier {
+			if !reflect.DeepEqual(k.c.normed(k.val), k.orig) {
+				eq, why = false, "earlier_value_changed"
+			}
+		}
+		if eq && val != nil {
+			if len(earlier) == 4 {
+				earlier = earlier[1:]
+			}
+			earlier = append(earlier, kept{val, c.orig, c})
+		}
 		tr.Emit("rt", "h", h, "eq", eq, "pure", pure, "det", det, "panic", panicked, "why", why,
 			"v", fmt.Sprintf("p=%d,c=%s,v=%d", v.P, v.C, v.V))
 	}
